@@ -43,6 +43,19 @@ func File(b int, header bool) *pbfgen.File {
 	return f
 }
 
+// FileVaried is File with the first two blocks stating non-default block
+// parameters (granularity, offsets, date granularity) and the later ones
+// omitting them: a decoder that handled one of the first blocks must not carry
+// its parameters into a later block.
+func FileVaried(b int, header bool) *pbfgen.File {
+	f := File(b, header)
+	for i := 0; i < 2 && i < len(f.Blocks); i++ {
+		f.Blocks[i].Granularity, f.Blocks[i].LatOffset, f.Blocks[i].LonOffset, f.Blocks[i].DateGranularity =
+			pbfgen.I32(1000), pbfgen.I64(123456000), pbfgen.I64(-98765000), pbfgen.I32(2000)
+	}
+	return f
+}
+
 // Reader is the scenario's input: it counts the bytes handed out and is a
 // scheduling point (a slow input). With BlockOnly it yields only when a file
 // block's 4-byte size prefix is requested, i.e. once per block.
